@@ -93,6 +93,7 @@ type Spec struct {
 	Bounds       map[string]string `json:"bounds"`
 	PanicIsOK    bool              `json:"panic_is_ok"` // uncaught panics are not violations
 	Params       map[string]int    `json:"-"`
+	ForkIndex    bool              `json:"fork_index"` // concretise symbolic indices by forking (keeps x*TABLE[i] linear)
 }
 
 // Shared is state shared by all workers of one harness run.
